@@ -186,5 +186,30 @@ fn main() {
         run.bound("scale: texts of 100..20000 valid alphabet lines; lines of 255..100000 bytes after six prefixes");
         run.merge(t);
     }
+    // byte sweep: every byte value in nine line positions
+    {
+        let mut t = Tally::new();
+        let mut n = 0;
+        for b in 1u16..=255 {
+            let b = b as u8;
+            // LF ends a line; VT FF CR 0x85 0xA0 are bytes of which the statement does not say whether they are blanks
+            if [b'\n', 0x0b, 0x0c, 0x0d, 0x85, 0xa0].contains(&b) {
+                continue;
+            }
+            n += 1;
+            let lines: Vec<Vec<u8>> = vec![
+                vec![b], vec![b, b'x'], vec![b'x', b], vec![b'@', b], [b"@cwd ".as_slice(), &[b]].concat(), [b"@cwd x".as_slice(), &[b]].concat(),
+                [b"@comment".as_slice(), &[b], b"x"].concat(), [b"@name ".as_slice(), &[b]].concat(), [b"f ".as_slice(), &[b]].concat(),
+            ];
+            for line in lines {
+                t.states += 1;
+                check_line(&mut t, &line);
+                check_text(&mut t, &[b"a\n".as_slice(), &line, b"\nb\n"].concat());
+                check_text(&mut t, &line);
+            }
+        }
+        run.bound(format!("byte sweep: {} byte values in nine line positions", n));
+        run.merge(t);
+    }
     run.finish();
 }
